@@ -663,6 +663,162 @@ def _length_accounting(c, prog, encs):
     # write_all of fixed arrays in the curve-point writers handled in R3.point-writer
 
 
+def _primitives(c, prog):
+    """R7: the primitive layer every codec (and every hash preimage, size figure and PSET value) is built from: fixed-width
+    integers are written as their little-endian bytes with one write_all and read back from exactly that many bytes with
+    from_le_bytes; slices are written whole; consensus_encode_with_size is compact size then the bytes; fixed arrays likewise."""
+    from ..analysis import effects
+
+    def effs(f):
+        return [(e["callee"], [show(a, -30) for a in e.get("args", [])]) for e in effects(f.body) if e["kind"] == "mutarg" and "index_mut" not in (e["callee"] or "")]
+
+    def ret(f):
+        return re.sub(r"@#\d+", "", show(Prov(f.body).local(0), -30))
+    W, R = "<W as ext::WriteExt>::", "<R as ext::ReadExt>::"
+    for ty, n in (("u16", 2), ("u32", 4), ("u64", 8), ("i16", 2), ("i32", 4), ("i64", 8)):
+        f = prog.fn(W + "emit_" + ty)
+        c.inst("R7.primitive-writer", "emit_%s = write_all(le bytes)" % ty, effs(f) == [("std::io::Write::write_all", ["arg1", "core::num::to_le_bytes(arg2)"])],
+               "effects %s" % effs(f), f.where(), f.path)
+        f = prog.fn(R + "read_" + ty)
+        r = ret(f)
+        e = effs(f)
+        buf = "repeat(('const', 'u8', 0), '%d')" % n
+        c.inst("R7.primitive-reader", "read_%s = from_le_bytes(exactly %d bytes)" % (ty, n),
+               len(set(map(str, e))) == 1 and e[0][0] == "std::io::Read::read_exact" and e[0][1][0] == "arg1" and buf in e[0][1][1]
+               and "std::result::Result::Ok{core::num::from_le_bytes(%s)}" % buf in r, "effects %s; returns %s" % (e[:1], r[-120:]), f.where(), f.path)
+    for nm, val in (("emit_u8", ("array{arg2}",)), ("emit_i8", ("array{(arg2 as u8)}",)), ("emit_bool", ("array{std::convert::num::<impl std::convert::From<bool> for u8>::from(arg2)}", "array{(arg2 as u8)}"))):
+        f = prog.fn(W + nm)
+        e = effs(f)
+        c.inst("R7.primitive-writer", "%s = write_all([v])" % nm, len(e) == 1 and e[0][0] == "std::io::Write::write_all" and e[0][1][0] == "arg1" and e[0][1][1] in val,
+               "effects %s" % e, f.where(), f.path)
+    f = prog.fn(W + "emit_slice")
+    c.inst("R7.primitive-writer", "emit_slice = write_all(v), Ok(v.len())", effs(f) == [("std::io::Write::write_all", ["arg1", "arg2"])] and "std::result::Result::Ok{core::slice::len(arg2)}" in ret(f),
+           "effects %s; returns %s" % (effs(f), ret(f)[-80:]), f.where(), f.path)
+    f = prog.fn(R + "read_slice")
+    c.inst("R7.primitive-reader", "read_slice = read_exact(slice)", ret(f) == "std::io::Read::read_exact(arg1, arg2)", "returns %s" % ret(f), f.where(), f.path)
+    f = prog.fn(R + "read_u8")
+    one = "repeat(('const', 'u8', 0), '1')"
+    c.inst("R7.primitive-reader", "read_u8 = one byte", "std::result::Result::Ok{%s[0]}" % one in ret(f) and all(x[0] == "std::io::Read::read_exact" and x[1] == ["arg1", one] for x in effs(f)),
+           "returns %s" % ret(f)[-80:], f.where(), f.path)
+    # integer impls of Encodable/Decodable delegate to the writer/reader of their own width
+    n_int = 0
+    for ty in ("u8", "u16", "u32", "u64", "i32", "i64"):
+        pe, pd = "<%s as encode::Encodable>::consensus_encode" % ty, "<%s as encode::Decodable>::consensus_decode" % ty
+        if not prog.has_fn(pe):
+            continue
+        n_int += 1
+        f = prog.fn(pe)
+        c.inst("R7.int-codec", "%s writer" % ty, effs(f) == [("ext::WriteExt::emit_" + ty, ["arg2", "arg1"])], "effects %s" % effs(f), f.where(), f.path)
+        if prog.has_fn(pd):
+            f = prog.fn(pd)
+            c.inst("R7.int-codec", "%s reader" % ty, ret(f) == "ext::ReadExt::read_%s(arg1)" % ty, "returns %s" % ret(f), f.where(), f.path)
+    f = prog.fn("encode::consensus_encode_with_size")
+    e = effs(f)
+    c.inst("R7.with-size", "compact size of the length, then the bytes, nothing else",
+           e == [("<encode::VarInt as encode::Encodable>::consensus_encode", ["encode::VarInt::VarInt{(core::slice::len(arg1) as u64)}", "arg2"]), ("ext::WriteExt::emit_slice", ["arg2", "arg1"])],
+           "effects %s" % e, f.where(), f.path)
+    for fnp in sorted(prog.fns):
+        m = re.match(r"^<\[u8; (\d+)\] as encode::(Encodable|Decodable)>::consensus_(en|de)code$", fnp)
+        if not m:
+            continue
+        f = prog.fn(fnp)
+        n = m.group(1)
+        if m.group(2) == "Encodable":
+            want = [("ext::WriteExt::emit_slice", ["arg2", "std::array::<impl std::ops::Index<I> for [T; N]>::index(arg1, std::ops::RangeFull::RangeFull{})"])]
+            c.inst("R7.array-codec", "[u8; %s] writer" % n, effs(f) == want and "std::result::Result::Ok{%s}" % n in ret(f), "effects %s; returns %s" % (effs(f), ret(f)[:60]), f.where(), f.path)
+        else:
+            buf = "repeat(('const', 'u8', 0), '%s')" % n
+            e = effs(f)
+            c.inst("R7.array-codec", "[u8; %s] reader" % n, len(set(map(str, e))) == 1 and e[0] == ("ext::ReadExt::read_slice", ["arg1", buf]) and "std::result::Result::Ok{%s}" % buf in ret(f),
+                   "effects %s; returns %s" % (e[:1], ret(f)[:60]), f.where(), f.path)
+    c.floor("R7.primitive-writer", 10, "6 little-endian writers, u8/i8/bool, slice")
+    c.floor("R7.primitive-reader", 8, "6 little-endian readers, u8, slice")
+    c.floor("R7.int-codec", 6)
+    c.floor("R7.array-codec", 4)
+
+
+def _newtype_views(c, prog):
+    """R7.newtype-view: the byte views of the hash/root newtypes are the identity on the wrapped bytes: as/to_byte_array
+    project field 0 (through the inner hash type's own view), from_byte_array wraps its argument (through the inner type's own
+    constructor), from_midstate takes the midstate's bytes. Every id, root and hash the other properties compare passes through them."""
+    n = 0
+    for path in sorted(prog.fns):
+        m = re.match(r"^((?:[a-z_0-9]+::)+)([A-Z]\w+)::(as_byte_array|to_byte_array|from_byte_array|from_midstate)$", path)
+        if not m or m.group(2) in ("RangeProofMessage", "AssetBlindingFactor", "ValueBlindingFactor"):
+            continue
+        f = prog.fn(path)
+        r = show(Prov(f.body).local(0), -30)
+        T = m.group(1) + m.group(2)
+        kind = m.group(3)
+        if kind in ("as_byte_array", "to_byte_array"):
+            ok = r == "arg1.0" or re.match(r"^hashes::[A-Za-z0-9_:]+::%s\(arg1\.0\)$" % kind, r) is not None
+        elif kind == "from_byte_array":
+            ok = re.match(r"^%s::%s\{(arg1|hashes::[A-Za-z0-9_:]+::from_byte_array\(arg1\))\}$" % (re.escape(T), m.group(2)), r) is not None
+        else:
+            ok = r == "%s::%s{hashes::sha256::Midstate::to_parts(arg1).0}" % (T, m.group(2))
+        n += 1
+        c.inst("R7.newtype-view", "%s::%s" % (m.group(2), kind), ok, "returns %s" % r[:160], f.where(), path)
+    c.floor("R7.newtype-view", 50, "as/to/from_byte_array of 17 newtypes, from_midstate of 5")
+
+
+def _locktime(c, prog):
+    """R7.locktime: a lock time is one u32 on the wire; below 500,000,000 it is a height, from there on a time, and the value is
+    carried unchanged in both directions (decision tables of the six conversion functions, evaluated at the threshold)."""
+    from .c15 import Fn, sh, decide
+    L = "locktime::"
+    rows = {}
+    F = Fn(prog, L + "LockTime::to_consensus_u32")
+    for cx, s_ in F.flat:
+        if s_[0] == "ret":
+            rows[tuple((sh(cn), a) for k, cn, a in cx if k == "if")] = sh(s_[1])
+    c.inst("R7.locktime", "to_consensus_u32: Blocks(h) -> h, Seconds(t) -> t",
+           rows == {(("discr(arg1)", "=0"),): L + "Height::to_consensus_u32(arg1.0)", (("discr(arg1)", "=1"),): L + "Time::to_consensus_u32(arg1.0)"}
+           and all(show(Prov(prog.fn(L + t + "::to_consensus_u32").body).local(0), -9) == "arg1.0" for t in ("Height", "Time")),
+           "rows %s" % rows, F.f.where(), F.f.path)
+    for fnp, lo_ok in ((L + "is_block_height", True), (L + "is_block_time", False)):
+        G = Fn(prog, fnp)
+        bad = []
+        from ..ieval import ieval, NoEval
+        rets_ = [s_[1] for cx, s_ in G.flat if s_[0] == "ret"]
+        for v in (0, 1, 499999999, 500000000, 500000001, 0xFFFFFFFF):
+            want = (v < 500000000) == lo_ok
+            try:
+                got = bool(ieval(rets_[0], {"n": v}, {"arg1": "n"})) if len(rets_) == 1 else None
+            except NoEval:
+                got = None
+            if got is not want:
+                bad.append((v, got))
+        c.inst("R7.locktime", fnp.split("::")[-1] + ": threshold 500000000", not bad, "deviations %s" % bad[:3], G.f.where(), G.f.path)
+    for ty, pred in (("Height", "is_block_height"), ("Time", "is_block_time")):
+        G = Fn(prog, L + ty + "::from_consensus")
+        rr = {}
+        for cx, s_ in G.flat:
+            if s_[0] == "ret":
+                rr[tuple((sh(cn), a) for k, cn, a in cx if k == "if")] = sh(s_[1])
+        oks = {k: v for k, v in rr.items() if v.startswith("std::result::Result::Ok")}
+        c.inst("R7.locktime", "%s::from_consensus: Ok(%s(n)) exactly when %s(n)" % (ty, ty, pred),
+               len(rr) == 2 and list(oks.values()) == ["std::result::Result::Ok{%s%s::%s{arg1}}" % (L, ty, ty)]
+               and list(oks)[0] in (((L + pred + "(arg1)", "otherwise"),), ((L + pred + "(arg1)", "=1"),)), "rows %s" % rr, G.f.where(), G.f.path)
+    G = Fn(prog, L + "LockTime::from_consensus")
+    rr = {}
+    for cx, s_ in G.flat:
+        if s_[0] == "ret":
+            rr[tuple((sh(cn), a) for k, cn, a in cx if k == "if")] = sh(s_[1])
+    H, T = L + "LockTime::Blocks{%sHeight::from_consensus(arg1)}" % L, L + "LockTime::Seconds{%sTime::from_consensus(arg1)}" % L
+    good = (rr in ({((L + "is_block_height(arg1)", "=0"),): T, ((L + "is_block_height(arg1)", "otherwise"),): H},
+                   {((L + "is_block_height(arg1)", "=1"),): H, ((L + "is_block_height(arg1)", "otherwise"),): T},
+                   {((L + "is_block_time(arg1)", "=0"),): H, ((L + "is_block_time(arg1)", "otherwise"),): T}))
+    c.inst("R7.locktime", "LockTime::from_consensus: height below the threshold, time from it on", good, "rows %s" % rr, G.f.where(), G.f.path)
+    fe = prog.fn("<locktime::LockTime as encode::Encodable>::consensus_encode")
+    fd = prog.fn("<locktime::LockTime as encode::Decodable>::consensus_decode")
+    re_, rd = show(Prov(fe.body).local(0), -30), show(Prov(fd.body).local(0), -30)
+    c.inst("R7.locktime", "wire form: the u32 of to_consensus_u32 / from_consensus of a u32",
+           re_ == "<u32 as encode::Encodable>::consensus_encode(locktime::LockTime::to_consensus_u32(arg1), arg2)"
+           and rd in ("std::result::Result::map(<u32 as encode::Decodable>::consensus_decode(arg1), fnitem('locktime::LockTime::from_consensus',))",),
+           "writer %s; reader %s" % (re_, rd), fe.where(), fe.path)
+    c.floor("R7.locktime", 7)
+
+
 def run(c, prog, ctx):
     c.explanation = (
         "Static decision of the structural clauses that make the consensus codec a bijection: (R1) deserialize returns Ok only "
@@ -685,6 +841,9 @@ def run(c, prog, ctx):
     _block_header(c, prog, encs, decs)
     _box_option(c, prog, encs, decs)
     _varints(c, prog)
+    _primitives(c, prog)
+    _newtype_views(c, prog)
+    _locktime(c, prog)
     _length_accounting(c, prog, encs)
     # guard predicates the codec branches on (witness flag, issuance flag, null-ness)
     run_predicates(c, prog, "R3.guard-predicates")
